@@ -690,7 +690,12 @@ func (ls *LState) where(level int, skipg bool) string {
 	}
 	line := ""
 	if proto != nil {
-		line = fmt.Sprintf("%v:", proto.DbgSourcePositions[cf.Pc-1])
+		pc := cf.Pc - 1
+		if pc < 0 {
+			// the frame is set up but has not run yet (a registry overflow while its registers are laid out)
+			pc = 0
+		}
+		line = fmt.Sprintf("%v:", proto.DbgSourcePositions[pc])
 	}
 	return fmt.Sprintf("%v:%v", sourcename, line)
 }
